@@ -83,11 +83,20 @@ CHECK_DEADLOCK FALSE
         def hf(x, seed, score=score):
             return score[x.rsplit("-", 1)[0]]
         # alternate between the constructor's `nodes=` list and add_node
-        h = RendezvousHash(hash_function=hf)
+        hist = list(b["hist"])
         ev = []
-        for op, n in b["hist"]:
+        if bi % 2:
+            # the first node comes in through the constructor's `nodes=` list instead of add_node
+            lead = 1 if hist and hist[0][0] == "add" else 0
+            h = RendezvousHash([RANK_NAMES[hist[0][1] - 1]] if lead else None, hash_function=hf)
+            if lead:
+                hist[0] = ["ctor", hist[0][1]]
+        else:
+            h = RendezvousHash(hash_function=hf)
+        for op, n in hist:
             name = RANK_NAMES[n - 1]
-            (h.add_node if op == "add" else h.remove_node)(name)
+            if op != "ctor":
+                (h.add_node if op == "add" else h.remove_node)(name)
             order = [RANK_NAMES.index(x) + 1 for x in h.nodes]
             w = h.get_node("k")
             ev.append({"e": "rot", "nodes": order})
@@ -134,16 +143,19 @@ CHECK_DEADLOCK FALSE
     for hi in range(12 if tier == "quick" else 120):
         names = rnd.sample(pool, rnd.randrange(3, 9))
         ranks = {n: i + 1 for i, n in enumerate(sorted(names))}
-        h = RendezvousHash()
+        h = RendezvousHash(list(names[:2])) if hi % 2 else RendezvousHash()
         ev = []
         ks = rnd.sample(keys, 60 if tier == "quick" else 300)
         for n in names[:2]:
-            h.add_node(n)
+            if not hi % 2:
+                h.add_node(n)
         observe(h, ranks, ev, ks)
         for step in range(6):
             present = list(h.nodes)
             absent = [n for n in names if n not in present]
-            if absent and (len(present) <= 1 or rnd.random() < 0.55):
+            if rnd.random() < 0.2:
+                h.add_node(rnd.choice(present))        # already there: a no-op
+            elif absent and (len(present) <= 1 or rnd.random() < 0.55):
                 h.add_node(rnd.choice(absent))
             else:
                 h.remove_node(rnd.choice(present))
